@@ -17,13 +17,16 @@ from . import dataflow
 
 Atom = Tuple[bool, str]
 
-_LOCALS_CACHE: Dict[str, Set[str]] = {}
+# keyed by the identity of the function's AST node; the node is kept in the
+# entry so that the id cannot be reused while the entry exists (one process
+# analyses several trees in the self-test / seed evaluation)
+_LOCALS_CACHE: Dict[object, Tuple[object, Set[str]]] = {}
 
 
 def local_names(f: FuncInfo) -> Set[str]:
-    s = _LOCALS_CACHE.get(f.qname)
-    if s is not None:
-        return s
+    ent = _LOCALS_CACHE.get(id(f.node))
+    if ent is not None and ent[0] is f.node:
+        return ent[1]
     s = set(f.params) | set(f.kwonly)
     if f.vararg:
         s.add(f.vararg)
@@ -36,7 +39,7 @@ def local_names(f: FuncInfo) -> Set[str]:
         elif isinstance(n, ast.ExceptHandler) and n.name:
             s.add(n.name)
     s |= set(f.nested)
-    _LOCALS_CACHE[f.qname] = s
+    _LOCALS_CACHE[id(f.node)] = (f.node, s)
     return s
 
 
@@ -65,8 +68,9 @@ def _stores(func) -> Dict[str, list]:
     """name -> list of assigned values (None for a store that is not a
     plain `name = value`), attribute paths assigned in the function"""
     key = id(func.node)
-    if key in _PROP_CACHE:
-        return _PROP_CACHE[key]
+    ent = _PROP_CACHE.get(key)
+    if ent is not None and ent[0] is func.node:
+        return ent[1]
     names: Dict[str, list] = {}
     attrs = set()
     for n in walk_own(func.node):
@@ -112,8 +116,8 @@ def _stores(func) -> Dict[str, list]:
                         for x in ast.walk(it.optional_vars):
                             if isinstance(x, ast.Name):
                                 names.setdefault(x.id, []).append(None)
-    _PROP_CACHE[key] = (names, attrs)
-    return _PROP_CACHE[key]
+    _PROP_CACHE[key] = (func.node, (names, attrs))
+    return _PROP_CACHE[key][1]
 
 
 def _propagated(owner: Frame, name: str):
@@ -376,7 +380,7 @@ class _FakeFrame:
     parent = None
 
 
-_LOCALS_CACHE['<rule>'] = set()
+_LOCALS_CACHE[id(_FakeFunc.node)] = (_FakeFunc.node, set())
 
 
 # ------------------------------------------------------------- entailment
